@@ -118,6 +118,8 @@ def leaf_free_text(sx, p):
     """any leaf text is either parsed or refused with a Client fault; nothing else escapes"""
     name, fam = p
     T, alphabet, lens = FREE[name]
+    if sx.tier == 'thorough' and max(lens) <= 5:
+        lens = tuple(sorted(set(lens) | {4, 5, 6}))
     L = sx.choose('len', list(lens))
     text = sx.text('t', L, alphabet=alphabet) if L else ''
     if L == 0 and fam.startswith('xml'):
